@@ -94,8 +94,10 @@ def handleBlur (toks : List String) : Option String := do
     for k in List.range d do
       poss := P g k :: poss
     for c in List.range C do
-      let v : Float := blurImpl (α := Rat) (β := Float) ratToFloat Float.exp Float.sqrt floatPi (ratToFloat sigma) cut N d2
-        (fun p => ratToFloat (cond p c))
+      let cf : Nat → Float := fun p => ratToFloat (cond p c)
+      let v : Float := if mode == "spec" then
+          blurSpecSq (α := Rat) (β := Float) ratToFloat Float.exp Float.sqrt floatPi (ratToFloat sigma) cut N d2 cf
+        else blurImpl (α := Rat) (β := Float) ratToFloat Float.exp Float.sqrt floatPi (ratToFloat sigma) cut N d2 cf
       vals := v :: vals
   pure (joinRat margins.reverse ++ " | " ++ joinRat poss.reverse ++ " | " ++ joinF vals.reverse)
 
